@@ -20,7 +20,8 @@ class C17(Prop):
             "non-integer index, a vector for a discrete space, an index for a box space, arbitrary Python objects; "
             "in-space actions exactly on the bounds; box spaces whose contracts have their own bounds (array low / high) with an "
             "entry outside the bounds of its own contract but inside the loosest bounds of the vector; in 30% of the cases an "
-            "earlier episode on the same environment is abandoned with decisions still queued. Non-trivial = a malformed action was injected (and became due), "
+            "earlier episode on the same environment is abandoned with decisions still queued; with no delay and no latency "
+            "a refused array is handed over again (the same object) and must be refused again. Non-trivial = a malformed action was injected (and became due), "
             "or an in-space action on a bound, or a cash entry in the action; distinct = distinct cases")
     rule = rule + es.CONTEXT_RULE
     nontrivial_tags = {"malformed-due", "on-bound", "cash-entry", "nr-contracts", "second-episode", "per-contract-bounds"}
@@ -70,6 +71,7 @@ class C17(Prop):
             ops = first + ops
             case["_two_episodes"] = True
         case["ops"] = ops
+        case["retry_refused"] = True
         return case
 
     @staticmethod
